@@ -175,6 +175,21 @@ func vc20directed() []string {
 				sign+"9223372036854775808ns9223372036854775807ns"+tail, sign+"9223372036854775808ns9223372036854775809ns"+tail, sign+"9223372036.854775808s9223372036854775808ns"+tail, sign+"2562047h47m16.854775808s9223372036854775808ns"+tail)
 		}
 	}
+	// a running total close to 1<<63, then a term whose integer part still fits while its FRACTION carries the sum
+	// past 1<<63 - or, added to the total, past 1<<64, where an unsigned sum wraps around to a small number
+	for _, first := range []string{"9223372036854775807ns", "9223372036854775808ns", "2562047h47m16s", "153722867m", "9223372036s", "2562047h", "4611686018427387904ns4611686018427387903ns"} {
+		for _, second := range []string{"2562047.8h", "2562047.99999h", "2562046.5h", "153722867.3m", "9223372036.9s", "9223372036854.9ms", "2562047.5h0.5h", "0.9ns", "1.5ns"} {
+			add(first+second, "-"+first+second, first+second+"1ns")
+		}
+	}
+	// LONG texts: the grammar has no length limit (zero padding, long fractions, many terms)
+	for _, k := range []int{200, 253, 254, 255, 256, 257, 300, 1000, 5000} {
+		z := strings.Repeat("0", k)
+		add(z+"1h", "0."+z+"1s", "1."+strings.Repeat("1", k)+"s", "-"+z+"5m"+z+"3s", strings.Repeat("x", k), z, z+"1d")
+	}
+	for _, n := range []int{64, 85, 86, 100, 300, 2000} {
+		add(strings.Repeat("1ns", n), strings.Repeat("0s", n), strings.Repeat("1h1ns", n/2), "-"+strings.Repeat("1.5us", n))
+	}
 	// invisible characters in front of, inside and behind a valid text: a byte order mark, zero-width and other spaces
 	for _, inv := range []string{"\xef\xbb\xbf", "\ufeff\ufeff", "\u200b", "\u00a0", "\u2060", "\u200e", " ", "\t", "\n", "\r\n", "\x00", "\ufffe", "\xfe\xff", "\xff\xfe"} {
 		add(inv+"1h", inv+"10s", inv+"-1s", "-"+inv+"1s", "1h"+inv, "1h"+inv+"30m", "1"+inv+"h", inv, inv+"0", inv+"1.5h30m", inv+"1d")
